@@ -36,6 +36,7 @@
 #include <unifex/type_list.hpp>
 #include <unifex/type_traits.hpp>
 
+#include <algorithm>
 #include <exception>
 #include <functional>
 #include <memory>
@@ -148,9 +149,9 @@ struct _receiver<Predecessor, Receiver, Func, FuncPolicy>::type {
       // Sequential implementation
       return unifex::then(
           unifex::just(std::forward<Values>(values)...),
-          [this, begin_it, end_it](auto... values) {
+          [func = std::move(func_), begin_it, end_it](auto... values) mutable {
             for (auto it = begin_it; it != end_it; ++it) {
-              if (std::invoke((Func&&)func_, *it, values...)) {
+              if (std::invoke(func, *it, values...)) {
                 return std::tuple<Iterator, Values...>(
                     it, std::move(values)...);
               }
@@ -186,7 +187,9 @@ struct _receiver<Predecessor, Receiver, Func, FuncPolicy>::type {
       diff_t num_chunks = (distance / max_num_chunks) > min_chunk_size
           ? max_num_chunks
           : ((distance + min_chunk_size) / min_chunk_size);
-      diff_t chunk_size = (distance + num_chunks) / num_chunks;
+      // round up, so that num_chunks chunks cover the range; trailing chunks
+      // may be short or empty and are clamped to the range below
+      diff_t chunk_size = (distance + num_chunks - 1) / num_chunks;
 
       // Found flag and vector that will be constructed in-place in the
       // operation state
@@ -226,14 +229,12 @@ struct _receiver<Predecessor, Receiver, Func, FuncPolicy>::type {
                                 unifex::bulk_schedule(
                                     std::move(sched), num_chunks),
                                 [&](diff_t index) {
-                                  auto chunk_begin_it =
-                                      begin_it + (chunk_size * index);
-                                  auto chunk_end_it = chunk_begin_it;
-                                  if (index < (num_chunks - 1)) {
-                                    std::advance(chunk_end_it, chunk_size);
-                                  } else {
-                                    chunk_end_it = end_it;
-                                  }
+                                  const diff_t distance = end_it - begin_it;
+                                  auto chunk_begin_it = begin_it +
+                                      std::min(chunk_size * index, distance);
+                                  auto chunk_end_it = begin_it +
+                                      std::min(
+                                          chunk_size * (index + 1), distance);
 
                                   for (auto it = chunk_begin_it;
                                        it != chunk_end_it;
